@@ -97,6 +97,11 @@ def reducedSpec [DecidableEq α] (n : Nat) (D : Dendro α) (labels : List Nat) (
         | some d => d.h == r.h && sameSet (leaves n D (n + t)) (expandLeaves k R labels (k + u))
         | none => false) "reduced-row-is-not-a-merge-of-the-tree"
 
+/-- the clusters alive after the first `m` merges of `D`, in increasing order of node id -/
+def liveNodes (n : Nat) (D : Dendro α) (m : Nat) : List Nat :=
+  let used := (D.take m).flatMap fun r => [r.i, r.j]
+  (List.range (n + m)).filter fun x => !used.contains x
+
 /-- `aggregate_dendrogram`: `k-1` rows keeping the heights of the last `k-1` merges; valid over `k` leaves
     weighted by the sizes of the subtrees they stand for; counts (when returned) are those sizes, sum `n` -/
 def aggSpec [DecidableEq α] (n : Nat) (D : Dendro α) (k : Nat) (A : Dendro α) (counts : Option (List Nat)) :
@@ -105,8 +110,7 @@ def aggSpec [DecidableEq α] (n : Nat) (D : Dendro α) (k : Nat) (A : Dendro α)
   need (A.length + 1 == k) "aggregate-row-count"
   need (A.map (·.h) == suffix.map (·.h)) "aggregate-heights"
   -- the clusters alive after the first n-k merges, in increasing order of node id
-  let used := (D.take (n - k)).flatMap fun r => [r.i, r.j]
-  let ext := (List.range (n + (n - k))).filter fun x => !used.contains x
+  let ext := liveNodes n D (n - k)
   let w := ext.map fun x => (leaves n D x).length
   need (ValidDendroW w A) "aggregate-not-valid"
   need (lastSizeIs n A) "aggregate-last-size"
